@@ -11,9 +11,13 @@ pub fn absolute<T: AsRef<Path>>(path: T) -> Result<PathBuf, E> {
     for comp in path.components() {
         match comp {
             C::CurDir => (),
-            C::ParentDir => {
-                out.pop().ok_or(E::CannotBeExported(ERROR_MESSAGE))?;
-            }
+            C::ParentDir => match out.last() {
+                Some(C::Normal(_)) => {
+                    out.pop();
+                }
+                // `..` must not climb above the root
+                _ => return Err(E::CannotBeExported(ERROR_MESSAGE)),
+            },
             comp => out.push(comp),
         }
     }
